@@ -1,16 +1,16 @@
 #!/bin/bash
 # usage: tools_patch.sh <patch.diff (absolute)> <PROP> [tier]  -- apply a patch to a SCRATCH worktree of /repo and
-# run the check against it (VERIF_REPO); /repo itself is never touched. The committed evidence files are put back
-# afterwards: evidence must come from the unchanged tree.
+# run the check against it (VERIF_REPO); /repo itself is never touched. Binaries, work files, replays and evidence of
+# such a run go to a scratch directory (VERIF_SCRATCH): evidence under /verif must come from the unchanged tree.
 set -u
-M=/tmp/repo_mut
-git -C /repo worktree remove --force $M 2>/dev/null; git -C /repo worktree prune
-git -C /repo worktree add -q $M HEAD || exit 9
-git -C $M apply "$1" || { echo "patch does not apply"; git -C /repo worktree remove --force $M; exit 9; }
-(cd $M && GOFLAGS=-mod=mod GOPROXY=off GOSUMDB=off GOTOOLCHAIN=local go build ./... ) || { echo "DOES NOT COMPILE"; git -C /repo worktree remove --force $M; exit 9; }
-rm -rf /tmp/evidence.bak && cp -r /verif/evidence /tmp/evidence.bak
-cd /verif && VERIF_REPO=$M ./check "$2" "${3:-quick}" > /tmp/patch_out.txt 2>&1; rc=$?
-grep -E "SUMMARY|VIOLATION|signature|INFRA|KNOWN" /tmp/patch_out.txt | cut -c1-260; echo "rc=$rc"
+M=$(mktemp -d /tmp/repo_mut.XXXXXX); rmdir $M
+S=$(mktemp -d /tmp/vscr.XXXXXX)
+git -C /repo worktree prune
+git -C /repo worktree add -q --detach $M HEAD || exit 9
+git -C $M apply "$1" || { echo "patch does not apply"; git -C /repo worktree remove --force $M; rm -rf $S; exit 9; }
+(cd $M && GOFLAGS=-mod=mod GOPROXY=off GOSUMDB=off GOTOOLCHAIN=local go build ./... ) || { echo "DOES NOT COMPILE"; git -C /repo worktree remove --force $M; rm -rf $S; exit 9; }
+cd /verif && VERIF_REPO=$M VERIF_SCRATCH=$S ./check "$2" "${3:-quick}" > $S/out.txt 2>&1; rc=$?
+cp $S/out.txt /tmp/patch_out.txt
+grep -E "SUMMARY|VIOLATION|signature|INFRA|KNOWN" $S/out.txt | cut -c1-260; echo "rc=$rc"
 git -C /repo worktree remove --force $M
-rm -rf /verif/evidence && mv /tmp/evidence.bak /verif/evidence
-rm -f /verif/replays/*.json
+rm -rf $S
